@@ -133,6 +133,13 @@ def check_case(spec):
     db, s = convert_device(da, ub[0])
     dev_b = build.make_device(db, cache=False, with_mesh=False)
     dev_b.mesh = dev_a.mesh
+    # a boundary site lying exactly on a terminal polygon's outline can fall on either side after the coordinates are rescaled
+    # (1e6 between nm and mm): then the two statements are not the same device at rounding level - not a case of this property
+    ta_ = {t.name: (tuple(map(int, t.site_indices)), tuple(map(int, t.boundary_edge_indices))) for t in dev_a.terminal_info()}
+    tb_ = {t.name: (tuple(map(int, t.site_indices)), tuple(map(int, t.boundary_edge_indices))) for t in dev_b.terminal_info()}
+    if ta_ != tb_:
+        res.label("discarded: ambiguous terminal membership (a boundary site on a terminal outline)")
+        return res
     # drives in system B
     fa = spec["field"]
     fb = dict(fa)
